@@ -337,6 +337,13 @@ def eval_kfl(tf, tfl, d):
     e = _close(yk[ok_rows], yl[ok_rows], 1e-9)
     if e:
       fail = "KroneckerFactoredLattice and the Lattice with its dense kernel disagree (clipped / in-range inputs): " + e
+  out_rows = [i for i in range(len(d["pts"])) if i not in ok_rows]
+  if fail is None and out_rows:
+    # the statement says "for all inputs": with clip_inputs=False and a point OUTSIDE the lattice range the two layers
+    # extrapolate differently (known finding D68; theorem C14_kfl_equals_dense carries the in-range-or-clipped guard)
+    e = _close(yk[out_rows], yl[out_rows], 1e-9)
+    if e:
+      fail = "unclipped out-of-range input: KroneckerFactoredLattice and the Lattice with its dense kernel differ: " + e
   coq = "CKfl %s %s %s %s %s %s %s %s %s %s %s %s %s" % (
       cbool(d["clip"]), cbool(d["iform"] == "tensor"), cnat(L), cnat(units), cnat(dims), cnat(terms), _ck3(d["k"]),
       cqm(d["s"]), cql(d["b"]), cqm(dense), _cpts(d["pts"]), cqm(_fl(yk)), cqm(_fl(yl)))
@@ -644,3 +651,12 @@ def eval_cases(ctx, descs):
   for d in descs:
     cases.append(EVAL[d["kind"]](tf, tfl, d))
   return cases
+
+
+def _d68(case):
+  d = case.desc
+  return (d.get("kind") == "kfl" and not d.get("clip") and
+          (case.pred_fail or "").startswith("unclipped out-of-range input: KroneckerFactoredLattice and the Lattice"))
+
+
+KNOWN_CLASSES = {"kfl_vs_lattice_unclipped_outside": _d68}
